@@ -172,6 +172,18 @@ def wit_lock(ctx, w):
     ctx.evaluations += n - 1
 
 
+def malformed_scripts(ctx, case):
+    """truncated / perturbed bytecode as the only script, as the lock after a witness that leaves a single
+    true, and as the witness before a lock that only needs a true: a malformed script never authorizes"""
+    p, kind, pos, code = case
+    ctx.state(('mal', code))
+    sig = {'family': 'malformed scripts', 'kind': kind.split('+')[0]}
+    judge(ctx, [code], {}, DEFAULT_LIMITS, sig)
+    judge(ctx, [b'\x01', code], {}, DEFAULT_LIMITS, sig)
+    judge(ctx, [code, b'\x01'], {}, DEFAULT_LIMITS, sig)
+    ctx.evaluations += 2
+
+
 def wit_lock_cfg(ctx, w):
     """small witnesses x locks x every initial cache x every limit triple"""
     wb = spaces.render(w)
@@ -244,7 +256,11 @@ def blocks(tier, seed):
     q = tier == 'quick'
     wn = 2 if q else 3
     small = list(spaces.progs_upto(1, 'wit'))
+    nmal = 2 if q else 3
     bl = [
+        Block('malformed_scripts', lambda s, n: spaces.malformed(nmal, 'full', s, n), malformed_scripts,
+              'every byte-prefix and single-byte perturbation of every full-grammar program with <= %d nodes, alone / as lock / as witness' % nmal,
+              nshards=64 if q else 256),
         Block('raw_single_len<=2', [b''] + [bytes([b]) for b in range(256)], raw_single,
               'every single script of length 1..2 over all byte values', nshards=64),
         Block('raw_pairs_len<=1', [b''] + [bytes([b]) for b in range(256)], raw_pair,
